@@ -70,6 +70,8 @@ class VLoop(base_events.BaseEventLoop):
         self.cycles = 0
         self.cycle_ticks: list = []
         self.steered = None
+        self.between: list = []
+        self._max_cycles = 300
         self.errors: list = []
         self.set_exception_handler(self._on_exc)
         self.eager = eager
@@ -114,22 +116,44 @@ class VLoop(base_events.BaseEventLoop):
 
         return self.call_at(t, fire)
 
+    def env_between(self, t, j, fn, *args):
+        """Like env_at, but ``fn`` runs BETWEEN two loop cycles (not as a loop callback), so that it may itself
+        keep the loop cycling through ``pump_until`` -- a foreign thread that blocks on the loop."""
+
+        def enqueue():
+            self.between.append((fn, args))
+
+        return self.env_at(t, j, enqueue)
+
+    def _cycle(self):
+        if not self._ready and not self._scheduled:
+            raise Deadlock()
+        self._run_once()
+        if self.steered is not None:
+            raise self.steered
+        self.cycle_ticks.append(self._vtime)
+        self.cycles += 1
+        if self.cycles > self._max_cycles:
+            raise CycleBudget(self.cycles)
+        while self.between:
+            fn, args = self.between.pop(0)
+            fn(*args)
+
+    def pump_until(self, pred):
+        """Keep the loop cycling until ``pred()`` holds: the caller plays a foreign thread that blocks while the
+        event loop thread runs on.  Only legal between cycles (from an env_between action)."""
+        while not pred():
+            self._cycle()
+
     # ---- driver -------------------------------------------------------------------------
     def run(self, coro, max_cycles: int = 300, drain_cycles: int = 0):
         events._set_running_loop(self)
         self.residue = None
         try:
             task = self.create_task(coro)
+            self._max_cycles = max_cycles
             while not task.done():
-                if not self._ready and not self._scheduled:
-                    raise Deadlock()
-                self._run_once()
-                if self.steered is not None:
-                    raise self.steered
-                self.cycle_ticks.append(self._vtime)
-                self.cycles += 1
-                if self.cycles > max_cycles:
-                    raise CycleBudget(self.cycles)
+                self._cycle()
             if drain_cycles:
                 # after the program ended: is anything still alive in the loop?
                 n = 0
